@@ -147,6 +147,27 @@ def one_write(ctx, n, weight):
     _check_state(ctx, comp, children, weight)
 
 
+def two_empty(ctx, weight):
+    """two composites constructed without children and filled afterwards do not share anything"""
+    mk = (lambda: UniformComposite()) if weight is None else (lambda: WeightedComposite(weight=weight))
+    c1, c2 = mk(), mk()
+    k1, k2 = _children(ctx, 1), _children(ctx, 2, start=1)
+    for k in k1:
+        c1.children.append(k)
+    for k in k2:
+        c2.children.append(k)
+    D1, D2 = ctx.num("D1"), ctx.num("D2")
+    ctx.assume(And(D1 >= 0, D2 >= 0))
+    c1.demand = D1
+    c2.demand = D2
+    ctx.reach()
+    ctx.require(len(c1.children) == 1 and len(c2.children) == 2, "each composite has its own children")
+    _check_write(ctx, c2, k2, weight, D2, "second: ")
+    ctx.require(k1[0].demand == D1, "first: the only child carries the whole demand")
+    _check_state(ctx, c1, k1, weight, "first: ")
+    _check_state(ctx, c2, k2, weight, "second: ")
+
+
 EDITS = ("state", "append", "remove")
 
 
@@ -191,6 +212,7 @@ def tasks(tier, seed):
     for weight in (None, "supply", "utilisation", "allocation"):
         for n in range(0, nmax + 1):
             out.append(Task(MOD, "one_write", dict(n=n, weight=weight), model="R", weight=n))
+        out.append(Task(MOD, "two_empty", dict(weight=weight), model="R", weight=3))
         hmax = 2 if tier == "quick" else 3
         for n in range(0, hmax + 1):
             for edit in EDITS:
